@@ -8,6 +8,27 @@ def run(ctx):
                                 costs=False, incentives=False, prices=False, addons=False, overpressure=False)
     extra += workload.synth_jobs(ctx, ['c05', 'c02'], ctx.pick(48, 500), res_models=(1, 2), resource='hostile',
                                  costs=False, incentives=False, prices=False, addons=False, overpressure=False)
+    # directed: redrilling actually reached (small maximum drawdown, Ramey wellbore model on) in every reservoir model and, in
+    # particular, under district heating, where Model.Calculate runs the reservoir / wellbore / plant chain twice
+    from .. import gen
+    for i in range(ctx.pick(24, 200)):
+        rm = (1, 2, 3, 4)[i % 4]
+        dh = i % 2 == 0
+        cell = (ctx.rng.choice([1, 2, 3]), 2, 7 if dh else 9, rm)
+        case = gen.synth_case(ctx.rng, cell, costs=False, incentives=False, prices=False, addons=False, overpressure=False,
+                              sdac=False, impedance=True, nseg=ctx.rng.choice([1, 2]))
+        gen.cset(case, 'Maximum Drawdown', ctx.rng.choice([0.02, 0.03, 0.05, 0.08]))
+        gen.cset(case, 'Ramey Production Wellbore Model', 1)
+        gen.cset(case, 'Plant Lifetime', ctx.rng.choice([12, 15, 20]))
+        gen.cset(case, 'Time steps per year', ctx.rng.choice([2, 3, 4]))
+        gen.cset(case, 'Injection Temperature', gen._round(ctx.rng.uniform(35, 60), 2))
+        if rm == 4:
+            gen.cset(case, 'Drawdown Parameter', gen._round(ctx.rng.uniform(0.005, 0.02), 4))
+        if rm == 3:
+            gen.cset(case, 'Drawdown Parameter', gen._round(gen._logu(ctx.rng, 3e-5, 3e-4), 6))
+        extra.append({'fn': 'gxv.jobs:run_oracles', 'args': {'text': gen.render(case), 'oracles': ['c05', 'c02'],
+                                                             'tag': {'cell': list(cell), 'directed': 'redrilling' + ('-district-heating' if dh else '')}},
+                      'timeout': 600})
     grid_check(ctx, 'c05', nontrivial_note='c05-nontrivial', also=('c02',), quick_fast=300, quick_slow=16,
                thorough_fast=3000, thorough_slow=200, extra_jobs=extra,
                required={'bottom-hole-temperature': 400, 'effective-depth': 300, 'history-starts-at-bht': 300,
